@@ -169,6 +169,9 @@ func (g *c17Gen) value(mod string, t ast.Expr, field string, depth int) string {
 		case "bool":
 			return fmt.Sprintf("vrf.Bool(%q)", g.fresh("b"))
 		case "uint64":
+			if depth == 0 && (field == "PoolId" || field == "AmmPoolId") {
+				return "1" // the pool the adversarial pre-state creates (pool addresses are hashes of the id)
+			}
 			return fmt.Sprintf("vrf.U64(%q, 0, 1<<40)", g.fresh("u"))
 		case "int64":
 			return fmt.Sprintf("vrf.I64(%q, 0, 1<<40)", g.fresh("i"))
